@@ -53,6 +53,7 @@ type KACase struct {
 	HTTPUs  int           `json:"http_keepalive_us"`
 	WSUs    int           `json:"ws_keepalive_us"` // 0: switched off
 	Conns   []KAConn      `json:"conns"`
+	TLS     bool          `json:"tls,omitempty"`
 }
 
 func genKACase(r *simrt.Rand, tier string) *KACase {
@@ -68,6 +69,7 @@ func genKACase(r *simrt.Rand, tier string) *KACase {
 	c.Pool = r.Pick(2, 4)
 	c.HTTPUs = r.Pick(20000, 50000, 200000)
 	c.WSUs = r.Pick(0, 10000, 30000, 400000)
+	c.TLS = r.Bool(0.2)
 	n := r.Range(1, 3)
 	for i := 0; i < n; i++ {
 		cn := KAConn{Kind: r.PickS("http", "ws"), Transfer: r.Bool(0.4)}
@@ -140,6 +142,11 @@ func shrinkKA(ci interface{}) []interface{} {
 		x.NPoller = 1
 		out = append(out, x)
 	}
+	if c.TLS {
+		x := cp()
+		x.TLS = false
+		out = append(out, x)
+	}
 	k := c.K
 	try := func(f func(p *kernel.Params)) {
 		x := cp()
@@ -195,7 +202,9 @@ func runKA(t *testing.T, ci interface{}, trace bool) *common.Outcome {
 			}
 			w.Write([]byte("ok"))
 		})
+		tlsOn = c.TLS
 		eng := newEngine(c.IOMod, c.Mode, c.NPoller, c.Pool, 8, handler)
+		tlsOn = false
 		eng.KeepaliveTime = httpK
 		u.Engine = eng
 		if err := eng.Start(); err != nil {
@@ -204,7 +213,7 @@ func runKA(t *testing.T, ci interface{}, trace bool) *common.Outcome {
 		}
 		addr := &kernel.Addr{Net: "tcp", IP: [4]byte{127, 0, 0, 1}, Port: 8080}
 		type cst struct {
-			sock     *kernel.Sock
+			p        *peer
 			recvd    []byte
 			eof      bool
 			eofAt    time.Time
@@ -217,31 +226,47 @@ func runKA(t *testing.T, ci interface{}, trace bool) *common.Outcome {
 		finished := 0
 		for i, plan := range c.Conns {
 			i, plan := i, plan
-			cs := &cst{sock: k.NewPeer(kernel.TCP), window: httpK}
+			cs := &cst{window: httpK}
 			conns[i] = cs
-			if err := k.ConnectPeer(cs.sock, addr); err != nil {
-				o.Infra = "client connect: " + err.Error()
-				return
+			if !c.TLS {
+				pp, err := dialPeer(k, addr)
+				if err != nil {
+					o.Infra = "client connect: " + err.Error()
+					return
+				}
+				cs.p = pp
 			}
 			cs.lastSent = time.Now()
-			simrt.GoNamed(fmt.Sprintf("kaclient%d-reader", i), func() {
-				simrt.MarkDaemon()
-				for {
-					simrt.WaitUntil("client-readable", func() bool { return cs.sock.Readable() > 0 || cs.sock.EOF() || cs.sock.Closed() })
-					if cs.sock.Readable() == 0 {
-						cs.eof, cs.eofAt = true, time.Now()
-						return
+			reader := func() {
+				simrt.GoNamed(fmt.Sprintf("kaclient%d-reader", i), func() {
+					simrt.MarkDaemon()
+					for {
+						b, err := cs.p.read()
+						if err != nil {
+							cs.eof, cs.eofAt = true, time.Now()
+							return
+						}
+						cs.recvd = append(cs.recvd, b...)
 					}
-					b, err := cs.sock.PeerRead(1 << 16)
-					if err != nil {
-						cs.eof, cs.eofAt = true, time.Now()
-						return
-					}
-					cs.recvd = append(cs.recvd, b...)
-				}
-			})
+				})
+			}
+			if !c.TLS {
+				reader()
+			}
 			simrt.GoNamed(fmt.Sprintf("kaclient%d", i), func() {
 				defer func() { cs.done = true; finished++ }()
+				if c.TLS {
+					// the idle period starts with the connection: handshake traffic is not a
+					// request, the reference instant is the connect (which precedes the accept)
+					cs.lastSent = time.Now()
+					pp, err := dialTLSPeer(k, "127.0.0.1:8443")
+					if err != nil {
+						fail("tls-handshake-failed", c.IOMod, "client %d: TLS handshake with the server failed: %v", i, err)
+						return
+					}
+					cs.p = pp
+					reader()
+				}
 				for _, st := range plan.Steps {
 					if st.GapUs > 0 {
 						simrt.Sleep(time.Duration(st.GapUs) * time.Microsecond)
@@ -252,7 +277,7 @@ func runKA(t *testing.T, ci interface{}, trace bool) *common.Outcome {
 					before := len(cs.recvd)
 					switch {
 					case st.Act == "req" && plan.Kind == "ws":
-						cs.sock.PeerWrite([]byte(fmt.Sprintf("GET /ws HTTP/1.1\r\nHost: sim\r\nX-Conn: %d\r\nConnection: Upgrade\r\nUpgrade: websocket\r\nSec-WebSocket-Version: 13\r\nSec-WebSocket-Key: dGhlIHNhbXBsZSBub25jZQ==\r\n\r\n", i)))
+						cs.p.write([]byte(fmt.Sprintf("GET /ws HTTP/1.1\r\nHost: sim\r\nX-Conn: %d\r\nConnection: Upgrade\r\nUpgrade: websocket\r\nSec-WebSocket-Version: 13\r\nSec-WebSocket-Key: dGhlIHNhbXBsZSBub25jZQ==\r\n\r\n", i)), 0)
 						cs.lastSent = time.Now()
 						simrt.WaitStuck("await-101", time.Second, func() bool { return bytes.Contains(cs.recvd, []byte("\r\n\r\n")) || cs.eof })
 						cs.upgraded = bytes.HasPrefix(cs.recvd, []byte("HTTP/1.1 101"))
@@ -260,15 +285,15 @@ func runKA(t *testing.T, ci interface{}, trace bool) *common.Outcome {
 							cs.window = wsK
 						}
 					case st.Act == "req":
-						cs.sock.PeerWrite([]byte(fmt.Sprintf("GET /x HTTP/1.1\r\nHost: sim\r\nX-Conn: %d\r\n\r\n", i)))
+						cs.p.write([]byte(fmt.Sprintf("GET /x HTTP/1.1\r\nHost: sim\r\nX-Conn: %d\r\n\r\n", i)), 0)
 						cs.lastSent = time.Now()
 						simrt.WaitStuck("await-answer", time.Second, func() bool { return len(cs.recvd) > before && bytes.HasSuffix(cs.recvd, []byte("ok")) || cs.eof })
 					case st.Act == "msg":
-						cs.sock.PeerWrite([]byte{0x81, 0x82, 1, 2, 3, 4, 'h' ^ 1, 'i' ^ 2})
+						cs.p.write([]byte{0x81, 0x82, 1, 2, 3, 4, 'h' ^ 1, 'i' ^ 2}, 0)
 						cs.lastSent = time.Now()
 						simrt.WaitStuck("await-echo", time.Second, func() bool { return len(cs.recvd) > before || cs.eof })
 					case st.Act == "ping":
-						cs.sock.PeerWrite([]byte{0x89, 0x80, 1, 2, 3, 4})
+						cs.p.write([]byte{0x89, 0x80, 1, 2, 3, 4}, 0)
 						cs.lastSent = time.Now()
 						simrt.WaitStuck("await-pong", time.Second, func() bool { return len(cs.recvd) > before || cs.eof })
 					}
